@@ -18,20 +18,20 @@ def gen(rng, tier):
     n = 30 if tier == "quick" else 300
     cases = []
     for k in range(n):
-        mode = ["conserve", "conserve_bias", "langevin", "reflect_lo", "reflect_hi", "walls", "generic"][k % 7]
+        mode = ["conserve", "conserve_bias", "langevin", "reflect_lo", "reflect_hi", "walls", "generic", "reflect_both"][k % 8]
         w = rng.choice([0.5, 1.0])
         tol = rng.choice([0.1, 0.2, 0.5]); tau = rng.choice([20.0, 50.0, 200.0]); T = rng.choice([300.0, 500.0])
         dt = rng.choice([0.5, 1.0, 2.0])
-        g = 0.0 if mode in ("conserve", "conserve_bias", "reflect_lo", "reflect_hi") else rng.choice([0.0, 1.0, 10.0])
+        g = 0.0 if mode in ("conserve", "conserve_bias", "reflect_lo", "reflect_hi", "reflect_both") else rng.choice([0.0, 1.0, 10.0])
         if mode == "langevin":
             g = rng.choice([1.0, 5.0])
-        kb = 0.0 if mode in ("conserve", "reflect_lo", "reflect_hi") else rng.choice([0.5, 2.0])
+        kb = 0.0 if mode in ("conserve", "reflect_lo", "reflect_hi", "reflect_both") else rng.choice([0.5, 2.0])
         cb = rng.uniform(-1, 1)
         kw = rng.choice([1.0, 4.0]) if mode in ("walls", "generic") else 0.0
         uw = rng.uniform(0.2, 1.0)
         lb, ub = -1.5, 1.5
-        refl_lo = mode in ("reflect_lo",) or (mode == "generic" and rng.rand() < 0.3)
-        refl_hi = mode in ("reflect_hi",) or (mode == "generic" and rng.rand() < 0.3)
+        refl_lo = mode in ("reflect_lo", "reflect_both") or (mode == "generic" and rng.rand() < 0.3)
+        refl_hi = mode in ("reflect_hi", "reflect_both") or (mode == "generic" and rng.rand() < 0.3)
         tsf = 1 if k % 3 != 2 else rng.choice([2, 3])
         kext = KB * T / (tol * tol)
         mext = (KB * T * tau * tau) / (4.0 * PI * PI * tol * tol)
@@ -74,9 +74,11 @@ def gen(rng, tier):
             if boundary is None:
                 if mode in ("conserve", "conserve_bias"):
                     x = x0
-                elif mode in ("reflect_lo", "reflect_hi"):
-                    # drive the coordinate towards the reflecting boundary
-                    x += (-0.03 if mode == "reflect_lo" else 0.03) + rng.uniform(-0.01, 0.01)
+                elif mode in ("reflect_lo", "reflect_hi", "reflect_both"):
+                    # drive the coordinate towards the reflecting boundary (both boundaries reflecting: the lower one in the first half of
+                    # the trajectory, then the upper one)
+                    down = mode == "reflect_lo" or (mode == "reflect_both" and t < nsteps // 2)
+                    x += (-0.06 if down else 0.06) * (2.0 if mode == "reflect_both" else 0.5) + rng.uniform(-0.01, 0.01)
                 else:
                     x += rng.uniform(-0.05, 0.05)
                 lines.append(pos(0, 0.0, 0.0, x))
